@@ -533,16 +533,22 @@ pub(crate) fn break_recursive_bounds(
     /// type: the type itself (by its bare name or as `Self`) as the type, as a generic argument, or
     /// inside a reference, array, slice or tuple. Not behind a raw pointer or a function pointer,
     /// in a `PhantomData`, a trait object or a projection, and not a type that only shares the name
-    /// (`other::Name<T>`, `I::Name`).
+    /// (`other::Name<T>`, `I::Name`). A path starting at a path keyword (`self::Name<T>`,
+    /// `crate::module::Name<T>`) is taken for the deriving type.
     fn holds(ty: &syn::Type, ident: &syn::Ident) -> bool {
         match ty {
             syn::Type::Path(syn::TypePath { qself: None, path }) => {
-                if path.segments.len() == 1
-                    && (path.segments[0].ident == *ident || path.segments[0].ident == "Self")
+                let first = &path.segments[0].ident;
+                let last = path.segments.last().unwrap();
+                if path.segments.len() == 1 && (*first == *ident || first == "Self") {
+                    return true;
+                }
+                if path.segments.len() > 1
+                    && last.ident == *ident
+                    && (first == "self" || first == "super" || first == "crate")
                 {
                     return true;
                 }
-                let last = path.segments.last().unwrap();
                 last.ident != "PhantomData"
                     && match &last.arguments {
                         syn::PathArguments::AngleBracketed(args) => {
